@@ -37,7 +37,7 @@ def st_rstart(draw):
     atom = [draw(st.integers(1, 3)) for _ in range(rank)]
     s = {'how': how, 'dt': draw(gens.st_dt()), 'atom': atom, 'indextype': draw(st.sampled_from(INDEXTYPES)),
          'meta': draw(st.sampled_from([None, None, 'dict', 'empty'])), 'mode': draw(st.sampled_from(['r+', 'r+', 'r'])),
-         'dtarg': draw(st.booleans())}
+         'dtarg': draw(st.booleans()), 'dtspell': draw(st.sampled_from([0, 0, 0] + list(range(1, 16)))), 'owspell': draw(st.sampled_from([0, 0, 1, 2, 3]))}
     if how == 'as':
         n = draw(st.integers(1, 4))
         s['items'] = [draw(st_item()) for _ in range(n)]
@@ -225,10 +225,13 @@ class RaggedRun:
         dt = dt_of(start['dt'])
         atom = tuple(start['atom'])
         md = {'a': 1, 'n': {'x': [1, 'é']}} if start['meta'] == 'dict' else ({} if start['meta'] == 'empty' else None)
-        kw = dict(overwrite=True) if overwrite else {}
+        kw = dict(overwrite=gens.spell_true(start.get('owspell', 0))) if overwrite else {}
+        dtsp = gens.spell_dtype(dt, start.get('dtspell', 0))
+        if start.get('dtspell') or (overwrite and start.get('owspell')):
+            self.out.cls('argument-spelling')
         self.indextype = start['indextype']
         if start['how'] == 'create':
-            self.ra = darr.create_raggedarray(self.path, atom=atom, dtype=dt, metadata=md, accessmode=start['mode'],
+            self.ra = darr.create_raggedarray(self.path, atom=atom, dtype=dtsp, metadata=md, accessmode=start['mode'],
                                               indextype=start['indextype'], **kw)
             self.m = []
             self.dt = dt
@@ -239,7 +242,7 @@ class RaggedRun:
             self.dt = np.dtype(ddt)
             items = [first] + [build_item(it, self.dt, atom) for it in start['items'][1:]]
             it = (x for x in items) if start.get('gen') else items
-            self.ra = darr.asraggedarray(self.path, it, dtype=(dt if start['dtarg'] else None), metadata=md,
+            self.ra = darr.asraggedarray(self.path, it, dtype=(dtsp if start['dtarg'] else None), metadata=md,
                                          accessmode=start['mode'], indextype=start['indextype'], **kw)
             self.m = [model_item(x, self.dt) for x in items]
         self.atom = atom
